@@ -6,7 +6,7 @@
 # survives the removal of a `vp run` snapshot.
 cd "$(dirname "$0")/.."
 first=${1:-1}; last=${2:-20}; shift 2
-checks=${@:-C02 C05 C11 C13 C14 C20}
+checks=${@:-C02 C05 C11 C13 C14 C18 C20}
 export VERIF_REPLAY_DIR=${SOAK_REPLAY_DIR:-/tmp/soak_replays}
 mkdir -p "$VERIF_REPLAY_DIR"
 bad=0
